@@ -4,16 +4,19 @@
    user's metres by 1000 on construction); it is compared with SurfaceStorage (mm) directly and the
    "too small to be considered" threshold is the literal 0.001 (mm).
 
-   Main results (profiles of any length):
-     infiltration_balance   (C01)  storage + ponding + deep percolation + runoff is conserved
-     surface_identity       (C02)  Infl_reported + (Runoff - Runoff0) = water offered
-     runoff_lower, runoff_bounds, infl_lower, infl_negative_only_without_bunds, dry_day   (C02)
-     infiltration_bounds    (C03)  in_bounds preserved, 0 <= ponding <= zbund, no bunds -> no ponding
-     deep_perc_nonneg       (C04)
+   Main results (profiles of any length; P = offered infl irr appeff gs = max(Infl,0) + [gs] Irr*AppEff/100):
+     infiltration_balance   (C01)  storage + ponding + deep percolation + runoff is conserved (back-up loop included)
+     surface_identity       (C02)  Infl_reported + (Runoff - Runoff0) = P          (no hypothesis at all)
+     runoff_lower, dry_day  (C02)
+     runoff_bounds, infl_lower, infl_negative_only_without_bunds, infl_negative_bund_removal   (C02, need flux_ok)
+     infiltration_bounds    (C03)  in_bounds preserved, 0 <= ponding <= zbund, no (or too small) bunds -> no ponding
+     deep_perc_nonneg       (C04, needs flux_ok)
      infiltration_defined
-   The statements that bound what leaves the bottom / comes back to the surface (deep_perc_nonneg, the upper
-   runoff bound, infl_lower) need `flux_ok p fl` : FluxOut[i] <= Ksat[i] on entry (what drainage produces);
-   without it they are false (deep_perc_nonneg_refuted, runoff_upper_refuted). *)
+   `flux_ok p fl` : FluxOut[i] <= Ksat[i] on entry (drainage's post-condition, DrainageR.drainage_flux_le_ksat).
+   Without it the compartment's `drainmax = Ksat - FluxOut` is negative, more water is sent back up than arrived and the
+   upper bounds fail: deep_perc_nonneg_refuted (one witness refutes deep_perc_nonneg, runoff_bounds and infl_lower).
+   Lemma chain: inf_backup_spec, inf_store_spec, inf_theta0_spec, inf_drainmax_spec, inf_comp_spec, inf_loop_spec (zipper
+   invariant), infiltration_eq (decomposition into inf_surface / inf_loopres / inf_final), infiltration_master. *)
 From AC Require Import Num RInst Params.
 From AC.proofs Require Import ProfR.
 From AC.Water Require Import Infiltration.
@@ -472,6 +475,20 @@ Proof.
   specialize (S7 Hon). lra.
 Qed.
 
+(* with the ponding invariant of C03 (surf <= zbund while bunds are on) only the bund-removal day is left *)
+Corollary infl_negative_bund_removal p surf fc th infl irr appeff bunds zbund fl dp0 ro0 gs th' surf' dp' ro' infl_rep fl' :
+  wf_prof p -> in_bounds p th -> fcadj_ok p fc -> flux_ok p fl -> 0 <= surf ->
+  (bunds = true -> 1 / 1000 < zbund -> surf <= zbund) ->
+  infiltration p surf fc th infl irr appeff bunds zbund fl dp0 ro0 gs = Some (th', surf', dp', ro', infl_rep, fl') ->
+  infl_rep < 0 -> (bunds = false \/ zbund <= 1 / 1000) /\ 0 < surf.
+Proof.
+  intros Hp Hb Hfc Hfl Hs Hinv E Hneg.
+  destruct (infl_negative_only_without_bunds _ _ _ _ _ _ _ _ _ _ _ _ _ _ _ _ _ _ _ Hp Hb Hfc Hfl Hs E Hneg) as [[H|[H|H]] H0];
+    split; try assumption; [left; exact H | right; exact H |].
+  destruct bunds; [|left; reflexivity]. right.
+  destruct (Rle_dec zbund (1 / 1000)) as [Hz|Hz]; [exact Hz|]. exfalso. assert (surf <= zbund) by (apply Hinv; [reflexivity|lra]). lra.
+Qed.
+
 (* ------------------------------------------------------------------ C03: physical limits *)
 Theorem infiltration_bounds p surf fc th infl irr appeff bunds zbund fl dp0 ro0 gs th' surf' dp' ro' infl_rep fl' :
   wf_prof p -> in_bounds p th -> fcadj_ok p fc -> 0 <= surf ->
@@ -537,17 +554,35 @@ Lemma wf_mk_comp dz dry wp fc s ksat tau :
   0 < dz -> 0 < dry -> dry < wp -> wp < fc -> fc < s -> 0 < tau <= 1 -> 0 < ksat -> wf_comp (mk_comp dz dry wp fc s ksat tau).
 Proof. intros; constructor; cbn; assumption. Qed.
 
-(* evaluation of the model on concrete reals: unfold one layer, decide the next comparison with lra *)
-Ltac rstep :=
-  unfold inf_comp_td, inf_theta0, inf_drainmax, inf_store, inf_dthdtS;
-  rnum;
-  cbn [fst snd negb andb orb mk_comp c_ksat c_dz c_tau c_th_s c_th_fc c_th_dry d_comp d_th d_fl
-       inf_loop inf_backup inf_finish map rev_append hd_error tl inf_comp inf_theta0_opt].
-Ltac rcompute := repeat (rstep; rcase_goal; try (exfalso; lra)); rstep.
+(* evaluation of the model on concrete reals: decide the comparisons with lra, close equalities of tuples of reals *)
+Ltac rdecide := repeat (rcase_goal; try (exfalso; lra)).
+Ltac req := repeat (first [lra | reflexivity | progress f_equal]).
 
-(* one saturated compartment (Ksat 20 mm/day) whose incoming FluxOut is 50 mm: 10 mm of rain produce
-   40 mm of runoff, -30 mm of deep percolation and -30 mm of reported infiltration (replayed on the Python:
-   infiltration(prof, 0., [0.3], [0.5], 10., 0., 100., False, 0., [50.], 0., 0., True) = ([0.5], 0, -30.0, 40.0, -30.0, [20.])) *)
+(* one saturated compartment (Ksat 20 mm/day) whose incoming FluxOut is 50 mm *)
+Definition rc : Comp R := mk_comp (1/10) (1/10) (2/10) (3/10) (5/10) 20 (1/2).
+
+Lemma rc_theta0 : inf_theta0 rc (3/10) 10 = (5/10, 1/10).
+Proof. unfold inf_theta0, inf_dthdtS, rc. rnum. cbn [mk_comp c_dz c_tau c_th_s c_th_fc]. rdecide. all: req. Qed.
+Lemma rc_drainmax : inf_drainmax rc 50 (1/10) = -30.
+Proof. unfold inf_drainmax, inf_dthdtS, rc. rnum. cbn [mk_comp c_dz c_tau c_th_s c_th_fc c_ksat]. rdecide. all: req. Qed.
+Lemma rc_store : inf_store rc (5/10) (5/10) 10 = (5/10, 10).
+Proof. unfold inf_store, rc. rnum. cbn [mk_comp c_dz]. rdecide. all: req. Qed.
+Lemma rc_comp : inf_comp_td rc (5/10, 1/10) (5/10) 50 10 = (5/10, 60, -30, 40).
+Proof. unfold inf_comp_td. cbn [fst snd]. rewrite rc_drainmax, rc_store. cbn [fst snd]. rnum. rdecide. all: req. Qed.
+Lemma rc_backup : inf_backup 40 [(rc, 5/10, 60)] = ([(rc, 5/10, 20)], 40).
+Proof.
+  cbn [inf_backup d_comp d_th d_fl fst snd]. rnum. unfold rc. cbn [mk_comp c_dz c_th_s]. rdecide. cbn [fst snd]. all: req.
+Qed.
+Lemma rc_loop : inf_loop [rc] [3/10] [5/10] [50] [] 10 0 = Some ([5/10], [20], -30, 40).
+Proof.
+  cbn [inf_loop hd_error tl inf_comp inf_theta0_opt]. rewrite rc_theta0, rc_comp. cbn [fst snd].
+  repeat match goal with |- context [inf_backup ?e ?d] =>
+    replace (inf_backup e d) with ([(rc, 5/10, 20)] : list DoneR, 40) by (symmetry; exact rc_backup) end.
+  cbn [fst snd inf_finish map rev_append d_th d_fl]. rnum. rdecide. all: req.
+Qed.
+
+(* 10 mm of rain then produce 40 mm of runoff, -30 mm of deep percolation and -30 mm of reported infiltration (replayed on the
+   Python: infiltration(prof, 0., [0.3], [0.5], 10., 0., 100., False, 0., [50.], 0., 0., True) = ([0.5], 0, -30.0, 40.0, -30.0, [20.])) *)
 Lemma deep_perc_nonneg_refuted :
   exists p surf fc th infl irr appeff bunds zbund fl dp0 ro0 gs th' surf' dp' ro' infl_rep fl',
     wf_prof p /\ in_bounds p th /\ fcadj_ok p fc /\ 0 <= surf /\ 0 <= zbund /\ 0 <= irr /\ 0 <= appeff /\ 0 <= dp0 /\ 0 <= ro0
@@ -555,14 +590,20 @@ Lemma deep_perc_nonneg_refuted :
     /\ ~ flux_ok p fl
     /\ dp' < dp0 /\ offered infl irr appeff gs + surf < ro' - ro0 /\ infl_rep < - surf.
 Proof.
-  exists [mk_comp (1/10) (1/10) (2/10) (3/10) (5/10) 20 (1/2)], 0, [3/10], [5/10], 10, 0, 100, false, 0, [50], 0, 0, true.
-  do 6 eexists.
+  exists [rc], 0, [3/10], [5/10], 10, 0, 100, false, 0, [50], 0, 0, true.
+  exists [5/10], 0, (-30), 40, (-30), [20].
   split. { constructor; [apply wf_mk_comp; lra | constructor]. }
   split. { constructor; [cbn; lra | constructor]. }
   split. { constructor; [cbn; lra | constructor]. }
   do 6 (split; [lra|]).
   split.
-  { unfold infiltration, inf_surface_nobunds, inf_surface_bunds, pmax. rcompute. all: reflexivity. }
+  { rewrite infiltration_eq. cbv zeta.
+    assert (EP : infP 10 0 100 true = 10) by (unfold infP, pmax; rnum; rdecide; lra). rewrite EP.
+    rewrite (Rleb_true 0 10) by lra. cbn [negb].
+    assert (Es : inf_surface [rc] 10 0 false 0 = Some (10, 0, 0)).
+    { unfold inf_surface, inf_surface_nobunds, bund_on, rc. cbn [andb mk_comp c_ksat]. rnum. rdecide. all: req. }
+    rewrite Es. unfold inf_loopres. rewrite (Rltb_true 0 10) by lra. rewrite rc_loop.
+    unfold inf_final, bund_on. cbn [andb fst snd]. rewrite andb_false_r. req. }
   split.
   { intros H. inversion H; subst. cbn in *. lra. }
   unfold offered, Rmax. destruct (Rle_dec 10 0); lra.
@@ -599,7 +640,7 @@ Example infiltration_balance_ex : exists th' surf' dp' ro' infl_rep fl',
   /\ storage ex_p th' + surf' + dp' + ro' = storage ex_p ex_th + 5 + offered 30 20 75 true + 10 + 4.
 Proof.
   destruct infiltration_defined_ex as [[[[[[th' surf'] dp'] ro'] ir] fl'] E]. exists th', surf', dp', ro', ir, fl'.
-  split; [exact E|]. apply (infiltration_balance _ _ _ _ _ _ _ _ _ _ _ _ _ _ _ _ _ _ _ ex_wf ex_in_bounds ex_fcadj ltac:(lra) E).
+  split; [exact E|]. refine (infiltration_balance _ _ _ _ _ _ _ _ _ _ _ _ _ _ _ _ _ _ _ ex_wf ex_in_bounds ex_fcadj _ E). lra.
 Qed.
 
 Example surface_identity_ex : exists th' surf' dp' ro' infl_rep fl',
@@ -615,10 +656,11 @@ Example runoff_bounds_ex : exists th' surf' dp' ro' infl_rep fl',
 Proof.
   destruct infiltration_defined_ex as [[[[[[th' surf'] dp'] ro'] ir] fl'] E]. exists th', surf', dp', ro', ir, fl'.
   split; [exact E|]. split; [|split].
-  - apply (runoff_bounds _ _ _ _ _ _ _ _ _ _ _ _ _ _ _ _ _ _ _ ex_wf ex_in_bounds ex_fcadj ex_flux ltac:(lra) E).
-  - apply (infl_lower _ _ _ _ _ _ _ _ _ _ _ _ _ _ _ _ _ _ _ ex_wf ex_in_bounds ex_fcadj ex_flux ltac:(lra) E).
+  - refine (runoff_bounds _ _ _ _ _ _ _ _ _ _ _ _ _ _ _ _ _ _ _ ex_wf ex_in_bounds ex_fcadj ex_flux _ E). lra.
+  - refine (infl_lower _ _ _ _ _ _ _ _ _ _ _ _ _ _ _ _ _ _ _ ex_wf ex_in_bounds ex_fcadj ex_flux _ E). lra.
   - intros Hneg.
-    destruct (infl_negative_only_without_bunds _ _ _ _ _ _ _ _ _ _ _ _ _ _ _ _ _ _ _ ex_wf ex_in_bounds ex_fcadj ex_flux ltac:(lra) E Hneg)
+    assert (H5 : 0 <= 5) by lra.
+    destruct (infl_negative_only_without_bunds _ _ _ _ _ _ _ _ _ _ _ _ _ _ _ _ _ _ _ ex_wf ex_in_bounds ex_fcadj ex_flux H5 E Hneg)
       as [[H|[H|H]] _]; [discriminate | lra | lra].
 Qed.
 
@@ -637,7 +679,8 @@ Example infiltration_bounds_ex : exists th' surf' dp' ro' infl_rep fl',
 Proof.
   destruct infiltration_defined_ex as [[[[[[th' surf'] dp'] ro'] ir] fl'] E]. exists th', surf', dp', ro', ir, fl'.
   split; [exact E|].
-  destruct (infiltration_bounds _ _ _ _ _ _ _ _ _ _ _ _ _ _ _ _ _ _ _ ex_wf ex_in_bounds ex_fcadj ltac:(lra) E) as (B1 & B2 & B3 & B4 & B5).
-  pose proof (deep_perc_nonneg _ _ _ _ _ _ _ _ _ _ _ _ _ _ _ _ _ _ _ ex_wf ex_in_bounds ex_fcadj ex_flux ltac:(lra) E) as D.
-  specialize (B3 eq_refl ltac:(lra)). repeat split; try assumption; lra.
+  assert (H5 : 0 <= 5) by lra. assert (Hz : 1 / 1000 < 100) by lra.
+  destruct (infiltration_bounds _ _ _ _ _ _ _ _ _ _ _ _ _ _ _ _ _ _ _ ex_wf ex_in_bounds ex_fcadj H5 E) as (B1 & B2 & B3 & B4 & B5).
+  pose proof (deep_perc_nonneg _ _ _ _ _ _ _ _ _ _ _ _ _ _ _ _ _ _ _ ex_wf ex_in_bounds ex_fcadj ex_flux H5 E) as D.
+  specialize (B3 eq_refl Hz). repeat split; try assumption; lra.
 Qed.
